@@ -251,19 +251,25 @@ fn sig_corners(_ctx: &Ctx, r: &mut Report) {
     }
 
     // --- C16 / C15: raw identifiers are the same names as their plain spelling (regression check for fix 38143dd)
-    for item in ["fn r#match(deps: &impl A, r#match: i32) -> i32 { r#match }", "fn foo(deps: &impl A, r#foo: i32) -> i32 { r#foo }", "fn r#bar(deps: &impl A, bar: i32) -> i32 { bar }", "fn r#type(deps: &impl A, W(r#type): W) {}"] {
+    for item in ["fn r#match(deps: &impl A, r#match: i32) -> i32 { r#match }", "fn foo(deps: &impl A, r#foo: i32) -> i32 { r#foo }", "fn r#bar(deps: &impl A, bar: i32) -> i32 { bar }", "fn r#type(deps: &impl A, W(r#type): W) {}", "fn f(deps: &impl A, r#arg1: i32, _: i32) {}", "fn f(deps: &impl A, W(r#arg1): W, _: i32) {}"] {
         let input = format!("#[entrait(Tr)] {}", item);
         r.guarded(&input, |r| {
             let Some(x) = expand_ok(r, &input, "Tr", item) else { return };
             let Some(t) = find_trait(&x.file.items, "Tr") else { return };
             for m in trait_methods(t) {
                 use syn::ext::IdentExt;
+                let mut seen: Vec<String> = vec![];
                 for a in &m.sig.inputs {
                     if let syn::FnArg::Typed(p) = a {
                         if let syn::Pat::Ident(pi) = p.pat.as_ref() {
                             if pi.ident.unraw() == m.sig.ident.unraw() {
                                 r.fail("raw-identifier-shadows-function", &input, format!("parameter `{}` of `{}` is the function's own name", pi.ident, m.sig.ident));
                             }
+                            let n = pi.ident.unraw().to_string();
+                            if seen.contains(&n) {
+                                r.fail("raw-identifier-bound-twice", &input, format!("`{}` is bound twice in `{}`", n, tt_string(&m.sig)));
+                            }
+                            seen.push(n);
                         }
                     }
                 }
@@ -290,6 +296,129 @@ fn sig_corners(_ctx: &Ctx, r: &mut Report) {
             for im in find_impls(&file.items, "Tr") {
                 if squash(&tt_string(&im.self_ty)).contains("impl") {
                     r.fail("fragment-dependency-taken-as-concrete", input, format!("implemented for `{}`", tt_string(&im.self_ty)));
+                }
+            }
+        });
+    }
+
+    // --- C01 / C04: a reference dependency in parentheses or in a `$t:ty` fragment keeps a by-reference receiver
+    //     (regression check for fix 55f5a08)
+    {
+        let frag = |inner: &str| -> TokenStream { std::iter::once(TokenTree::Group(proc_macro2::Group::new(Delimiter::None, ts(inner)))).collect() };
+        let mut cases: Vec<(String, TokenStream)> = vec![];
+        cases.push(("fn f(deps: (&impl A), x: i32) {}".into(), ts("fn f(deps: (&impl A), x: i32) {}")));
+        cases.push(("fn f<D: A>(deps: ((&D)), x: i32) {}".into(), ts("fn f<D: A>(deps: ((&D)), x: i32) {}")));
+        for inner in ["&impl A", "&App", "&'static App"] {
+            let mut params = ts("deps:");
+            params.extend(frag(inner));
+            params.extend(ts(", x: i32"));
+            let mut f = ts("fn f");
+            f.extend(std::iter::once(TokenTree::Group(proc_macro2::Group::new(Delimiter::Parenthesis, params))));
+            f.extend(ts("{}"));
+            cases.push((format!("fn f(deps: <none>{}</none>, x: i32) {{}}", inner), f));
+        }
+        for (text, item) in cases {
+            let input = format!("#[entrait(Tr)] {}", text);
+            r.guarded(&input, |r| {
+                let out = expand_ts(Variant::Entrait, ts("Tr"), item.clone());
+                if let Some(e) = compile_error_of(&out) {
+                    return r.fail("unexpected-error", &input, e);
+                }
+                let Ok(file) = parse_file(&out) else { return r.fail("unparsable", &input, "output does not parse".into()) };
+                let Some(t) = find_trait(&file.items, "Tr") else { return };
+                for m in trait_methods(t) {
+                    if !matches!(m.sig.inputs.first(), Some(syn::FnArg::Receiver(rc)) if rc.reference.is_some()) {
+                        r.fail("wrapped-reference-dependency-by-value", &input, format!("the dependency is a reference, but the method is `{}`", tt_string(&m.sig)));
+                    }
+                }
+                for im in find_impls(&file.items, "Tr") {
+                    if squash(&tt_string(&im.generics.params)).contains("marker::Send") {
+                        r.fail("wrapped-reference-dependency-by-value", &input, format!("an undeclared `Send` requirement: `impl<{}>`", tt_string(&im.generics.params)));
+                    }
+                }
+            });
+        }
+    }
+
+    // --- C03: where-predicates on projections / with relaxed bounds, `impl Trait` inside the dependency type, `-> !`
+    let more: [(&str, &str, &str); 7] = [
+        ("where-clause-split", "Tr", "fn f<D, T>(deps: &D, t: T) -> Vec<T::Item> where D: A, T: Iterator, T::Item: Clone { todo!() }"),
+        ("relaxed-where-on-method", "Tr", "fn f<T>(deps: &impl A, t: &T) -> String where T: ?Sized + ToString { t.to_string() }"),
+        ("impl-trait-in-header", "Tr", "fn f(deps: &Holder<impl A>, x: u8) {}"),
+        ("impl-trait-in-header", "Tr", "fn f(deps: &impl Get<Out = impl std::fmt::Display>) {}"),
+        ("never-type-in-output", "Tr", "async fn f(deps: &impl A) -> ! { loop {} }"),
+        ("deps-generic-still-referenced", "Tr", "fn f<D>(deps: &D) where (D): A {}"),
+        ("generic-param-cfg", "Tr", "fn f<#[cfg(any())] T, U: Clone>(deps: &impl A, a: &U) -> U { a.clone() }"),
+    ];
+    for (class, attr, item) in more {
+        let input = format!("#[entrait({})] {}", attr, item);
+        r.guarded(&input, |r| {
+            let Some(x) = expand_ok(r, &input, attr, item) else { return };
+            let Some(t) = find_trait(&x.file.items, "Tr") else { return r.fail("no-trait", &input, "trait not generated".into()) };
+            let ims = find_impls(&x.file.items, "Tr");
+            match class {
+                "where-clause-split" => {
+                    // a predicate on a projection of T must sit where the bound that gives T its projection sits
+                    let tw = squash(&tt_string(&t.generics.where_clause));
+                    let tg = squash(&tt_string(&t.generics.params));
+                    if tw.contains("T::Item:Clone") && !(tw.contains("T:Iterator") || tg.contains("T:Iterator")) {
+                        r.fail(class, &input, format!("the trait carries `T::Item: Clone` but `T: Iterator` stayed on the method only (E0220): `trait Tr<{}> {}`", tt_string(&t.generics.params), tt_string(&t.generics.where_clause)));
+                    }
+                }
+                "relaxed-where-on-method" => {
+                    for m in trait_methods(t) {
+                        let mw = squash(&tt_string(&m.sig.generics.where_clause));
+                        if mw.contains("?Sized") && !m.sig.generics.params.iter().any(|p| matches!(p, syn::GenericParam::Type(tp) if tp.ident == "T")) {
+                            r.fail(class, &input, format!("`T` was lifted onto the trait, but `{}` stayed on the method, where a relaxed bound is not permitted", tt_string(&m.sig.generics.where_clause)));
+                        }
+                    }
+                }
+                "impl-trait-in-header" => {
+                    for im in &ims {
+                        let hdr = format!("{} {}", tt_string(&im.self_ty), tt_string(&im.generics.where_clause));
+                        if mentions_ident(ts(&hdr), "impl") {
+                            r.fail(class, &input, format!("`impl Trait` ends up in the header of the generated impl (E0562): `for {}`", hdr));
+                        }
+                    }
+                }
+                "never-type-in-output" => {
+                    for m in trait_methods(t) {
+                        if squash(&tt_string(&m.sig.output)).contains("Output=!") {
+                            r.fail(class, &input, format!("`{}` needs the unstable never type (E0658); the plain async fn is stable Rust", tt_string(&m.sig.output)));
+                        }
+                    }
+                }
+                "deps-generic-still-referenced" => {
+                    for it in x.file.items.iter().skip(1) {
+                        if mentions_ident(it.to_token_stream(), "D") {
+                            r.fail(class, &input, "the generated code still refers to the removed dependency parameter `D` (the bound `(D): A` was not recognised as a dependency bound)".into());
+                        }
+                    }
+                }
+                "generic-param-cfg" => {
+                    for im in &ims {
+                        let args = squash(&im.trait_.as_ref().map(|t| tt_string(&t.1)).unwrap_or_default());
+                        if args.contains("<T,") || args.contains("<T>") {
+                            r.fail(class, &input, format!("`T` is `#[cfg(any())]` in the input, but the generated impl names it unconditionally: `{}`", args));
+                        }
+                    }
+                }
+                _ => {}
+            }
+        });
+    }
+
+    // --- C03 / C08: a generic function of a module makes every sibling method generic
+    {
+        let item = "mod m { pub fn get<T: Default>(deps: &impl A) -> T { T::default() } pub fn ping(deps: &impl A) {} }";
+        let input = format!("#[entrait(Tr)] {}", item);
+        r.guarded(&input, |r| {
+            let Some(x) = expand_ok(r, &input, "Tr", item) else { return };
+            let Some(t) = mod_items(&x.file.items, "m").and_then(|it| find_trait(it, "Tr")) else { return };
+            if !t.generics.params.is_empty() {
+                let idle: Vec<String> = trait_methods(t).iter().filter(|m| !mentions_ident(m.sig.to_token_stream(), "T")).map(|m| m.sig.ident.to_string()).collect();
+                if !idle.is_empty() {
+                    r.fail("module-sibling-generic", &input, format!("`T` of `get` became a parameter of the whole trait `Tr<{}>`; methods {:?} do not mention it, so calling them leaves `T` unconstrained (E0283) and `&impl Tr` needs an argument (E0107)", tt_string(&t.generics.params), idle));
                 }
             }
         });
@@ -450,6 +579,55 @@ fn trait_corners(_ctx: &Ctx, r: &mut Report) {
         });
     }
 
+    // --- C06 / C07: supertraits of the entraited trait must be provable for `Impl<T>`
+    for attr in ["", "delegate_by = ref", "TrImpl, delegate_by = DelegateTr"] {
+        let item = "trait Tr: Send + 'static { fn f(&self, o: u64) -> u64; }";
+        let input = format!("#[entrait({})] {}", attr, item);
+        r.guarded(&input, |r| {
+            let Some(x) = expand_ok(r, &input, attr, item) else { return };
+            for im in find_impls(&x.file.items, "Tr") {
+                // `Impl<T>: Send` needs `T: Send`; with the default delegation `T: Tr` implies it
+                let w = squash(&tt_string(&im.generics.where_clause));
+                let g = squash(&tt_string(&im.generics.params));
+                let provable = w.contains("EntraitT:Tr+") || w.contains("EntraitT:Tr,") || w.ends_with("EntraitT:Tr") || w.contains("marker::Send") || g.contains("marker::Send") || w.contains(":Send");
+                if !provable {
+                    r.fail("supertrait-not-provable", &input, format!("the trait requires `Send` of its implementors, but nothing in `impl<{}> .. {}` lets rustc prove `Impl<EntraitT>: Send` (E0277)", tt_string(&im.generics.params), tt_string(&im.generics.where_clause)));
+                }
+            }
+        });
+    }
+
+    // --- C09: attributes written inside the trait body are attributes of the trait (regression check for fix 9c935b7)
+    {
+        let item = "pub trait Tr { #![allow(non_snake_case)] #![doc = \"inner\"] fn GetValue(&self) -> i32; }";
+        let input = format!("#[entrait] {}", item);
+        r.guarded(&input, |r| {
+            let Some(x) = expand_ok(r, &input, "", item) else { return };
+            let Some(t) = find_trait(&x.file.items, "Tr") else { return r.fail("no-trait", &input, "trait missing".into()) };
+            let attrs: Vec<String> = t.attrs.iter().map(|a| squash(&tt_string(a))).collect();
+            for want in ["allow(non_snake_case)", "doc=\"inner\""] {
+                if !attrs.iter().any(|a| a.contains(want)) {
+                    r.fail("trait-inner-attribute-dropped", &input, format!("`{}` written inside the trait body is gone; the trait carries {:?}", want, attrs));
+                }
+            }
+        });
+    }
+
+    // --- C19: the selector trait uses the reserved parameter name (regression check for fix ed165fc)
+    {
+        let item = "trait Tr { fn f(&self); }";
+        let input = format!("#[entrait(T, delegate_by = DelegateTr)] {}", item);
+        r.guarded(&input, |r| {
+            let Some(x) = expand_ok(r, &input, "T, delegate_by = DelegateTr", item) else { return };
+            if let Some(d) = find_trait(&x.file.items, "DelegateTr") {
+                let ps: Vec<String> = d.generics.params.iter().map(|p| tt_string(p)).collect();
+                if ps != vec!["EntraitT".to_string()] {
+                    r.fail("selector-trait-parameter-name", &input, format!("`trait DelegateTr<{}>`: a parameter name that is not reserved can shadow the user's trait", ps.join(", ")));
+                }
+            }
+        });
+    }
+
     // --- C13: the selector trait follows the entraited trait's visibility (regression check for fix 892ec62)
     for vis in ["", "pub", "pub(crate)"] {
         let item = format!("{} trait Tr {{ fn f(&self); }}", vis);
@@ -568,6 +746,32 @@ fn input_corners(_ctx: &Ctx, r: &mut Report) {
                         r.fail("unsafe-on-inherent-impl", &input, "`unsafe` was put on the inherent impl (E0197) instead of on the implementation of the trait".into());
                     }
                 }
+            }
+        });
+    }
+
+    // --- C02: an inner attribute at the top of an impl block is passed through (regression check for fix 63b8e24)
+    {
+        let item = "impl TrImpl for X { #![allow(clippy::needless_return)] fn f<D>(deps: &D) -> u8 { return 1; } }";
+        let input = format!("#[entrait] {}", item);
+        r.guarded(&input, |r| {
+            let Some(x) = expand_ok(r, &input, "", item) else { return };
+            let kept = x.file.items.iter().any(|it| matches!(it, syn::Item::Impl(i) if i.trait_.is_none() && i.attrs.iter().chain(std::iter::empty()).count() + squash(&tt_string(i)).matches("#![allow(clippy::needless_return)]").count() > 0));
+            if !kept {
+                r.fail("impl-inner-attribute-dropped", &input, "the inner attribute of the impl block is not on the inherent impl".into());
+            }
+        });
+    }
+
+    // --- C15: a self receiver is a misuse with or without `no_deps` (regression check for fix 98663fe)
+    for item in ["fn f(&self, x: i32) {}", "fn f(self: &Self, x: i32) {}", "mod m { pub fn f(self, x: i32) {} }"] {
+        let input = format!("#[entrait(Tr, no_deps)] {}", item);
+        r.guarded(&input, |r| {
+            let out = expand(Variant::Entrait, "Tr, no_deps", item);
+            match compile_error_of(&out) {
+                Some(e) if e.contains("Function cannot have a self receiver") => {}
+                Some(e) => r.fail("wrong-diagnostic", &input, format!("expected `Function cannot have a self receiver`, got {}", e)),
+                None => r.fail("self-receiver-accepted", &input, "a method was accepted as entraited function".into()),
             }
         });
     }
